@@ -61,6 +61,8 @@ func c08AnchoredDoc(r *rand.Rand) string {
 	// collections written in the other style than the block collections above (a sum or a copy made of both has to
 	// pick one: for ITS nodes, not for the document's)
 	fmt.Fprintf(&sb, "flowseq: [{v: 1, w: %s}, {v: 2}]\nflowmap: {name: web, port: %s}\n", sc(), sc())
+	// scalars that carry a tag of the user's own
+	sb.WriteString("sec: !secret hunter2\nenvs:\n  - !env HOME\n  - !env PATH\n  - plain\n")
 	if useCPU {
 		sb.WriteString("elsewhere: *cpu\n")
 	}
@@ -82,6 +84,8 @@ var c08AnchorPool = []string{
 	// the loop variable auto-create, which is the recorded deviation of the main family)
 	`ro!.items[] as $u ireduce ({}; . * {"k": $u.meta.owner})`, `ro!.items[] as $u ireduce ({}; .[$u.v | tostring] = $u.meta.owner)`, `ro!.flowseq[] as $u ireduce ({}; . * {($u.v | tostring): $u.zz.deep})`,
 	`ro!.refsmap[] as $u ireduce ({"n": 0}; .n += ($u.zz_missing | length))`, `ro!.items[] as $u ireduce ([]; . + [$u.spec.zz])`, `ro!.flowseq[] as $u ireduce ({}; {"last": $u.meta.owner})`,
+	// conversions of scalars that carry a tag of the user's own
+	`.sec | to_string`, `.sec | tostring`, `.envs | sort_by(to_string)`, `.envs[] | select(to_string == "HOME")`, `.envs | map(to_string)`, `.sec | to_number`, `.envs | map(tag)`, `.sec | upcase`, `.envs | join(",")`,
 	// operators that stamp positions on their results
 	`split_doc`, `.items[] | split_doc`, `[.refs[] | split_doc] | length`, `.service | split_doc | document_index`, `document_index`, `[.. | document_index] | unique`,
 	// comparisons and orderings over nodes that are or contain aliases
